@@ -7,7 +7,7 @@ func init() {
 		// the acknowledgement oracle (a pure function) against hand-written histories with known verdicts
 		{Run: "TestJudgeSelfCheck", Kind: "test"},
 		// (b) a history costs 0.1-2 s (reconnects, a rare 1 s back-off of the client), mostly waiting
-		{Run: "TestAcks", Quick: 480, Thorough: 8000, QShards: 24, TShards: 32, QTimeout: 10 * time.Minute, TTimeout: 90 * time.Minute},
+		{Run: "TestAcks", Quick: 480, Thorough: 8000, QShards: 32, TShards: 32, QTimeout: 10 * time.Minute, TTimeout: 90 * time.Minute},
 		// (a) a stack costs 3-8 s of real time (server start, baseline delivery, reconnects), one
 		// case at a time per process; concurrency comes from the shard processes
 		{Run: "TestSurvival", Quick: 64, Thorough: 800, QShards: 32, TShards: 32, QTimeout: 12 * time.Minute, TTimeout: 120 * time.Minute},
